@@ -90,6 +90,7 @@
 import GherkinVerif.Lemmas.IdsPipeline
 import GherkinVerif.Lemmas.IdsPipelineRefs
 import GherkinVerif.Lemmas.IdsPipelineStream
+import GherkinVerif.KDecide
 namespace GV
 open Spec
 
@@ -275,7 +276,7 @@ example : (MState.init Gen.dialects (lit "en")).bind (fun μ =>
       | _ => none) =
     some [[List.range' 0 30], [[30, 47]],
       [[30, 31, 32, 33], [34, 35, 36], [37, 38, 39], [40, 41, 42], [43, 44, 45, 46]]] := by
-  decide +kernel
+  kdecide
 
 example : (MState.init Gen.dialects (lit "en")).map (fun μ =>
       let r := parseWith Gen.dialects Gen.parserTable false μ 100 C11P_demo
@@ -283,7 +284,7 @@ example : (MState.init Gen.dialects (lit "en")).map (fun μ =>
       | .ok d => (compile (lit "u") d r.2.ids).map fun (x : List Pickle × Nat) =>
           (decide (canonicalIds d ++ idOrder x.1 = List.range' 100 47), r.2.ids, x.2)
       | _ => none) = some (some (true, 130, 147)) := by
-  decide +kernel
+  kdecide
 
 /-- P2 on the demo.  The AST: feature tags 28 29; background 2 with step 1 (table row 0); plain
     scenario 6 with steps 3 4 and tag 5; outline 20 with step 7, tags 18 19, examples 12 (tag 11,
@@ -304,7 +305,7 @@ example : (MState.init Gen.dialects (lit "en")).bind (fun μ =>
           [[20, 10], [1], [7, 10], [28, 29, 18, 19, 11]],
           [[20, 14], [1], [7, 14], [28, 29, 18, 19, 15, 16]],
           [[25], [1], [21], [23], [28, 29, 26, 24]]] := by
-  decide +kernel
+  kdecide
 
 example : (MState.init Gen.dialects (lit "en")).bind (fun μ =>
       let r := parseWith Gen.dialects Gen.parserTable false μ 0 C11P_demo
@@ -312,7 +313,7 @@ example : (MState.init Gen.dialects (lit "en")).bind (fun μ =>
       | .ok d => (compile (lit "u") d r.2.ids).map fun (x : List Pickle × Nat) =>
           x.1.all fun p => (pickleRefs p).all fun i => (canonicalIds d).count i == 1
       | _ => none) = some true := by
-  decide +kernel
+  kdecide
 
 /-- the theorems apply to the demo: all hypotheses are met (the stream's matcher, an accepted
     parse, the compiler's result), so every pickle of the demo resolves -/
@@ -336,20 +337,20 @@ example :
       [List.range' 0 47, [], List.range' 51 5] ∧
     counterAfter Gen.dialects Gen.parserTable ⟨true, true, true⟩
       [(lit "a", C11P_demo), (lit "b", C11P_ragged), (lit "c", C11P_small)] 0 = 56 := by
-  decide +kernel
+  kdecide
 
 /-- per envelope: the document's 30 ids, then each pickle's step ids and its own -/
 example :
     (streamAll Gen.dialects Gen.parserTable ⟨true, true, true⟩
       [(lit "c", C11P_small), (lit "b", C11P_ragged), (lit "c", C11P_small)] 0).map (·.map envelopeIds) =
       [[[], [0, 1, 2], [3, 4]], [[]], [[], [9, 10, 11], [12, 13]]] := by
-  decide +kernel
+  kdecide
 
 /-- with the document not printed its ids are drawn but not shown: blocks with gaps, increasing -/
 example :
     streamIds (streamAll Gen.dialects Gen.parserTable ⟨true, false, true⟩
       [(lit "a", C11P_small), (lit "b", C11P_ragged), (lit "c", C11P_small)] 0) = [3, 4, 12, 13] := by
-  decide +kernel
+  kdecide
 
 /-- the dense case: two accepted sources and one rejected source that draws nothing; the
     hypotheses of `C11_stream_ids_dense` hold for these sources, and the ids are 0 … 56 -/
@@ -363,7 +364,7 @@ example :
         match (parseWith Gen.dialects Gen.parserTable false μ 0 s).1 with
         | .ok _ => true
         | _ => false) = some [true, true] := by
-  decide +kernel
+  kdecide
 
 end examples
 end GV
